@@ -805,6 +805,13 @@ def oracle_c02(ctx, focus):
                 t = t + rng.choice([" ", "\n", ".", "!", " -", "'"])
             texts.append(t)
         texts += ["", " ", "-", "--", "...", "a", "日本語", "no numbers here, at all.", "pre- and post-war", "wait-- what?", "l'- a", "x-", "x'", "x-'y"]
+        # a number of several words, and a pair of small numbers, after z ordinary words, z a size mined from the source
+        multi_ = [p_ for p_ in bank if " " in p_] or bank
+        single_ = [p_ for p_ in bank if " " not in p_] or bank
+        for z in _srcmine.sizes(41, 1100000):
+            texts.append("so " * z + rng.choice(multi_) + " x.")
+            if z < 20000:
+                texts.append("so " * z + rng.choice(single_) + ", " + rng.choice(single_) + " x.")
         texts = [t for (l, t) in focus_texts(focus) if (l in (None, lang)) and not t.startswith("__apply__")] + texts
         for t in texts:
             th = rng.choice(ALL_THR)
